@@ -6,7 +6,6 @@ from . import props
 
 NOT_APPLICABLE = {
     "C01": "the handshake parser (InitMsg::read_from) does not complete under symbolic execution within the caps even for one concrete message; the decidable remainder (error atomicity) does not decide the property",
-    "C05": "needs all delivery schedules of two retransmitting handshake state machines plus a liveness clause; one loss-free real handshake already exceeds the caps; no inductive step available",
     "C09": "history property of a whole node (GenericCloud) with timers and address-keyed maps; no loop-free kernel implies it",
     "C10": "conservation across 2-5 whole nodes per step; no kernel reachable by bounded symbolic execution implies it",
     "C17": "beacon extraction and decoding did not complete under bounded symbolic execution: BeaconSerializer::decode over a 10-character symbolic text (str::find with 5-character markers, everything else stubbed) and peerlist_decode over a 10-byte symbolic body (codec stubbed, digest modelled) both ran past 15 min / 16 GB; the text codec itself (to_base62/from_base62) does not complete for 2 bytes",
